@@ -74,6 +74,7 @@ Proof.
   - eapply step_sound; [|exact Hin]. intros x b after E. constructor.
     destruct fl; [now left|right]. simpl in E. intros ->. discriminate.
   - eapply step_sound; [|exact Hin]. intros x b after E. constructor. intros ->. discriminate.
+  - destruct Hin.
   - destruct k0 as [b s]. simpl in Hin. destruct b; [|destruct Hin].
     destruct Hin as [<-|[]]. exists []. repeat split. constructor.
   - destruct k0 as [b s]. simpl in Hin. destruct s; [|destruct Hin].
@@ -439,19 +440,24 @@ Proof.
   apply bool_eq_iff. rewrite search_correct, Search_anchored. now apply alts_M.
 Qed.
 
-Lemma compile_nil_search p : forall r, compile [] = Some r -> search r p = isnil p.
+Lemma M_none_inv fl b s after : ~ M fl RNone b s after.
+Proof. intros H. inversion H. Qed.
+
+(** the empty list: the empty character class, which nothing matches -- not even the empty path *)
+Lemma compile_nil_search p : forall r, compile [] = Some r -> search r p = false.
 Proof.
   intros r Hc. apply compile_some in Hc. destruct Hc as [rs [Htr ->]].
   simpl in Htr. injection Htr as <-.
-  apply bool_eq_iff. rewrite search_correct, Search_anchored. apply M_eps_iff.
+  destruct (search _ p) eqn:E; [|reflexivity].
+  apply search_correct, Search_anchored in E. simpl in E. now apply M_none_inv in E.
 Qed.
 
 Lemma glob_set_matches gs r p :
-  compile gs = Some r -> gs <> [] \/ p <> [] -> search r p = existsb (fun g => glob_match g p) gs.
+  compile gs = Some r -> search r p = existsb (fun g => glob_match g p) gs.
 Proof.
-  intros Hc [Hne|Hne]; [now apply glob_set_matches_bytes|].
+  intros Hc.
   destruct gs as [|g gs]; [|apply glob_set_matches_bytes; [exact Hc|discriminate]].
-  rewrite (compile_nil_search p r Hc). destruct p; [congruence|reflexivity].
+  now rewrite (compile_nil_search p r Hc).
 Qed.
 
 (** * Part 4: compilation errors *)
@@ -514,14 +520,14 @@ Qed.
 
 Lemma glob_select_spec inc exc paths l :
   glob_select inc exc paths = Some l ->
-  forall p, p <> [] ->
+  forall p,
     (In p l <-> In p paths /\ existsb (fun g => glob_match g p) inc = true
                            /\ existsb (fun g => glob_match g p) exc = false).
 Proof.
   unfold glob_select. destruct (compile inc) as [ri|] eqn:Ei; [|discriminate].
   destruct (compile exc) as [re|] eqn:Ee; [|discriminate].
-  intros H p Hp. injection H as <-. rewrite filter_In, andb_true_iff, negb_true_iff.
-  rewrite (glob_set_matches inc ri p Ei (or_intror Hp)), (glob_set_matches exc re p Ee (or_intror Hp)).
+  intros H p. injection H as <-. rewrite filter_In, andb_true_iff, negb_true_iff.
+  rewrite (glob_set_matches inc ri p Ei), (glob_set_matches exc re p Ee).
   tauto.
 Qed.
 
